@@ -1049,7 +1049,13 @@ func runC13(w *World, r *Report) {
 	}
 
 	r.rule("retry-order", "the retry order never prefers a newer parked vertex over an older one (a child retried before its parked parent starves the parent until the child's retries are exhausted)", 1)
-	if gn := w.fx(r, "accountant", "buffer", "getNext"); gn != nil {
+	popFn, popSites := bufferPop(w)
+	if popFn == nil {
+		r.bad("retry-order", "buffer.getNext/comparator", "-", "the ticker loop takes parked vertices from the buffer through one method", "no *buffer method returning a parked record is called from buffer.run")
+	}
+	if popFn != nil {
+		gn := &fx{w, r, popFn}
+		r.seen(shortFn(popFn))
 		verdict, why := "fifo", "no comparator: arrival order"
 		for _, c := range gn.calls("slices.SortStableFunc", "slices.SortFunc", "sort.Slice", "sort.SliceStable") {
 			for _, arg := range c.Common().Args {
@@ -1111,13 +1117,21 @@ func runC13(w *World, r *Report) {
 
 	r.rule("popped-is-published", "buffer.run publishes every parked vertex it pops: from getNext() every path to the next tick sends that value on the subscription channel, except when the buffer was empty", 1)
 	if br := w.fx(r, "accountant", "buffer", "run"); br != nil {
-		pops := callsTo(br.fn, cn("accountant", "*buffer", "getNext"))
+		pops := popSites
 		if len(pops) == 0 {
 			r.bad("popped-is-published", "buffer.run/getNext", w.Pos(br.fn.Pos()), "the ticker loop pops parked vertices with getNext", "no such call")
 		}
 		for _, pc := range pops {
-			pv := callValue(pc)
+			pv := resultAt(pc, 0)
+			if pv == nil {
+				pv = callValue(pc)
+			}
 			empty := edgesWhere(br.fn, func(ft fact) bool {
+				if ft.kind == fFalse { // `v, ok := pop(); if !ok`
+					if ex, isEx := strip(ft.x).(*ssa.Extract); isEx && ex.Tuple == callValue(pc) && ex.Index > 0 {
+						return true
+					}
+				}
 				if ft.kind != fIsNil {
 					return false
 				}
@@ -1190,14 +1204,14 @@ func runC13(w *World, r *Report) {
 
 	r.rule("retry-reenters-admission", "the retry loop hands every parked vertex to addLeafMemorized and nothing else inserts into the DAG (closure facts of C10)", 2)
 	if rl := w.fx(r, "accountant", "AccountingBook", "runLeafSubscriber"); rl != nil {
-		cs := rl.calls(cn("accountant", "*AccountingBook", "addLeafMemorized"))
+		cs := deepCalls(rl.fn, byName(cn("accountant", "*AccountingBook", "addLeafMemorized")), 1)
 		ok := len(cs) == 1
 		why := fmt.Sprintf("%d calls", len(cs))
 		if ok {
-			_, a := callArgs(cs[0])
+			_, a := callArgs(cs[0].c)
 			// the argument is what was received from the buffer's channel
 			fromSub := false
-			for _, o := range origins(a[1]) {
+			for _, o := range origins(cs[0].argValue(a[1])) {
 				if ex, isEx := o.(*ssa.Extract); isEx {
 					if sel, isSel := ex.Tuple.(*ssa.Select); isSel {
 						for _, st := range sel.States {
@@ -1214,10 +1228,10 @@ func runC13(w *World, r *Report) {
 		r.check(ok, "retry-reenters-admission", "runLeafSubscriber", w.Pos(rl.fn.Pos()), "replayed vertices take the normal admission path", why)
 		// the replay runs under the ledger's own long-lived context (that of the loop), not under one remembered from the
 		// delivery: a request context is over when the delivery returned, and a cancelled validation deletes the parent
-		for _, c := range cs {
-			_, a := callArgs(c)
-			own := len(rl.fn.Params) > 1 && len(a) > 0 && sameVal(a[0], rl.fn.Params[1])
-			r.check(own, "retry-reenters-admission", "runLeafSubscriber/replay-context", lineOf(w, c), "the replay is admitted under the subscriber loop's own context", "context argument is "+pathOf(a[0]))
+		for _, d := range cs {
+			_, a := callArgs(d.c)
+			own := len(rl.fn.Params) > 1 && len(a) > 0 && sameVal(d.argValue(a[0]), rl.fn.Params[1])
+			r.check(own, "retry-reenters-admission", "runLeafSubscriber/replay-context", lineOf(w, d.c), "the replay is admitted under the subscriber loop's own context", "context argument is "+d.path(a[0]))
 		}
 		direct := len(rl.calls(nAddVertexByID, nAddEdge))
 		r.check(direct == 0, "retry-reenters-admission", "runLeafSubscriber/no-direct-insert", w.Pos(rl.fn.Pos()), "the retry loop never touches the DAG itself", fmt.Sprintf("%d direct DAG calls", direct))
@@ -1253,9 +1267,44 @@ func runC14(w *World, r *Report) {
 
 	r.rule("failure-leads-to-cancel", "every failing step of the load leads to cancel before any exit: saveTrxInVertex, AddVertexByID, AddEdge, nil vertex, wrong type, no root", 3)
 	for _, callee := range []string{nSaveTrx, nAddVertexByID, nAddEdge} {
-		for _, c := range f.calls(callee) {
-			ok := len(failErrNonNil(c)) > 0
-			for _, fe := range failErrNonNil(c) {
+		for _, d := range deepCalls(fn, byName(callee), deepDepth) {
+			c := d.c
+			// in a helper: the step's failure makes the helper fail (or the helper hands the step's result on) …
+			ok := true
+			at := c
+			for lvl := len(d.chain); lvl > 0; lvl-- {
+				hfn := at.Parent()
+				propagated := false
+				for _, ret := range returnsOf(hfn) {
+					vals, _ := resultVals(ret, len(ret.Results)-1)
+					for _, v := range vals {
+						if ev := errResult(at); ev != nil && sameVal(v, ev) {
+							propagated = true
+						}
+					}
+				}
+				fes := failErrNonNil(at)
+				if len(fes) == 0 && !propagated {
+					ok = false
+				}
+				for _, fe := range fes {
+					walkFrom(nil, fe.To(), nil, func(x ssa.Instruction) bool {
+						if ret, isRet := x.(*ssa.Return); isRet {
+							if successReturn(ret) {
+								ok = false
+							}
+							return true
+						}
+						return false
+					})
+				}
+				at = d.chain[lvl-1]
+			}
+			// … and in LoadDag itself the failure leads to cancel
+			if len(failErrNonNil(at)) == 0 {
+				ok = false
+			}
+			for _, fe := range failErrNonNil(at) {
 				if !leadsOnlyToCancel(fe, cancel, loaded) {
 					ok = false
 				}
@@ -1436,6 +1485,38 @@ func rootedDeep(fn *ssa.Function, o ssa.Value) []ssa.Value {
 		}
 	}
 	return out
+}
+
+// bufferPop: the method of the orphan buffer that the ticker loop (buffer.run) calls to take the next parked vertex — found
+// by its role (a *buffer method called from run whose first result is the parked record), so that renaming it or giving it
+// an extra `ok` result does not lose the anchor.
+func bufferPop(w *World) (*ssa.Function, []ssa.CallInstruction) {
+	run := w.Func("accountant", "buffer", "run")
+	if run == nil {
+		return nil, nil
+	}
+	var pop *ssa.Function
+	var sites []ssa.CallInstruction
+	instrsOf(run, func(in ssa.Instruction) {
+		c, ok := in.(*ssa.Call)
+		if !ok {
+			return
+		}
+		cal := c.Call.StaticCallee()
+		if cal == nil || cal.Signature.Recv() == nil || namedOf(cal.Signature.Recv().Type()) != "accountant.buffer" {
+			return
+		}
+		res := cal.Signature.Results()
+		if res.Len() == 0 || namedOf(res.At(0).Type()) != "accountant.memory" {
+			return
+		}
+		if _, isPtr := res.At(0).Type().Underlying().(*types.Pointer); isPtr {
+			return
+		}
+		pop = cal
+		sites = append(sites, c)
+	})
+	return pop, sites
 }
 
 func blockCancelDesc(w *World, b *ssa.BasicBlock) string {
